@@ -319,6 +319,9 @@ func (v *Validators) PayRewardsV3(height uint64, period int64) (moreRewards *big
 			continue // punished in this block: its reward went back to the pool and there is no stake to divide by
 		}
 		candidate := v.bus.Candidates().GetCandidate(validator.PubKey)
+		if candidate == nil {
+			continue // its public key was changed in this block: SetNewValidators moves what it accrued to the total-slashed pool
+		}
 
 		totalReward := big.NewInt(0).Set(validator.GetAccumReward())
 		remainder := big.NewInt(0).Set(validator.GetAccumReward())
@@ -468,6 +471,9 @@ func (v *Validators) PayRewardsV5Fix(height uint64, period int64) (moreRewards *
 			continue // punished in this block: its reward went back to the pool and there is no stake to divide by
 		}
 		candidate := v.bus.Candidates().GetCandidate(validator.PubKey)
+		if candidate == nil {
+			continue // its public key was changed in this block: SetNewValidators moves what it accrued to the total-slashed pool
+		}
 
 		totalReward := big.NewInt(0).Set(validator.GetAccumReward())
 		remainder := big.NewInt(0).Set(validator.GetAccumReward())
@@ -667,6 +673,9 @@ func (v *Validators) PayRewardsV5Bug(height uint64, period int64) (moreRewards *
 			continue // punished in this block: its reward went back to the pool and there is no stake to divide by
 		}
 		candidate := v.bus.Candidates().GetCandidate(validator.PubKey)
+		if candidate == nil {
+			continue // its public key was changed in this block: SetNewValidators moves what it accrued to the total-slashed pool
+		}
 
 		totalReward := big.NewInt(0).Set(validator.GetAccumReward())
 		remainder := big.NewInt(0).Set(validator.GetAccumReward())
@@ -866,6 +875,9 @@ func (v *Validators) PayRewardsV4(height uint64, period int64) (moreRewards *big
 			continue // punished in this block: its reward went back to the pool and there is no stake to divide by
 		}
 		candidate := v.bus.Candidates().GetCandidate(validator.PubKey)
+		if candidate == nil {
+			continue // its public key was changed in this block: SetNewValidators moves what it accrued to the total-slashed pool
+		}
 
 		totalReward := big.NewInt(0).Set(validator.GetAccumReward())
 		remainder := big.NewInt(0).Set(validator.GetAccumReward())
